@@ -48,15 +48,20 @@ Definition sort_one (orders : list rorder) (k : cndl) : list rorder :=
       on_open ++ (if is_red then sort_asc above ++ sort_desc below else sort_desc below ++ sort_asc above)
   end.
 
-(* _sort_execution_orders(orders, short_candles) *)
+(* `order not in sorted_orders` (object identity) *)
+Definition listed (acc : list rorder) (o : rorder) : bool := existsb (fun x => Nat.eqb (oid x) (oid o)) acc.
+
+(* _sort_execution_orders(orders, short_candles): an order already listed by an earlier candle is skipped;
+   the orders no candle of the chunk contains are kept at the end *)
 Fixpoint sort_exec_from (orders : list rorder) (ks : list cndl) (acc : list rorder) : list rorder :=
   match ks with
   | [] => acc
   | k :: r =>
-      let acc' := acc ++ sort_one orders k in
+      let acc' := acc ++ sort_one (filter (fun o => negb (listed acc o)) orders) k in
       if Nat.eqb (length acc') (length orders) then acc' else sort_exec_from orders r acc'
   end.
-Definition sort_exec (orders : list rorder) (ks : list cndl) : list rorder := sort_exec_from orders ks [].
+Definition sort_exec (orders : list rorder) (ks : list cndl) : list rorder :=
+  let s := sort_exec_from orders ks [] in s ++ filter (fun o => negb (listed s o)) orders.
 
 Definition candidates (k : cndl) (w : list rorder) : list rorder :=
   let ex := executing k w in
